@@ -61,8 +61,10 @@ def gen_potable(rng):
     dens = [(a, b) for a in els for b in els if rng.random() < 0.7] or [(els[0], els[0])]
     rng.shuffle(dens)
     const = {'%s->%s' % k: 10.0 + 7 * i for i, k in enumerate(sorted(dens))}
-    return {'potable_fs': True, 'els': els, 'embed': embed, 'dens': [list(k) for k in dens], 'const': const,
+    c = {'potable_fs': True, 'els': els, 'embed': embed, 'dens': [list(k) for k in dens], 'const': const,
             'target': rng.choice(['setfl_fs', 'DL_POLY_EAM_fs', 'excel_eam_fs']), 'nr': rng.choice([3, 4, 6]), 'nrho': rng.choice([2, 3, 5]), 'include_all': rng.random() < 0.3}
+    if rng.random() < 0.25: c = same_but_cut(c, rng)
+    return c
 
 def potable_corpus():
     out = []
@@ -71,16 +73,34 @@ def potable_corpus():
         if (c['els'][0], c['els'][0]) not in [tuple(x) for x in c['dens']]:      # make sure a self entry A->A is declared
             c['dens'].append([c['els'][0], c['els'][0]]); c['const']['%s->%s' % (c['els'][0], c['els'][0])] = 3.5
         out.append(c)
+    for k, t in enumerate(['setfl_fs', 'DL_POLY_EAM_fs']):
+        for j in range(20):
+            c = gen_potable(random.Random(450 + 10 * k + j))
+            if len(c['dens']) >= 3: break
+        c['target'] = t; c['include_all'] = False
+        out.append(same_but_cut(c, random.Random(460 + k)))
     return out
 
 def potable_text(c):
     t = '[Tabulation]\ntarget : %s\nnr : %d\ncutoff : 5.0\nnrho : %d\ncutoff_rho : 10.0\n\n' % (c['target'], c['nr'], c['nrho'])
     t += '[EAM-Embed]\n' + ''.join('%s : as.constant %r\n' % (e, 100.0 + i) for i, e in enumerate(c['embed'])) + '\n[EAM-Density]\n'
-    t += ''.join('%s->%s : as.constant %r\n' % (a, b, c['const']['%s->%s' % (a, b)]) for a, b in c['dens']) + '\n[Pair]\n'
+    t += ''.join('%s->%s : as.constant %r%s\n' % (a, b, c['const']['%s->%s' % (a, b)], ' >=%r as.zero' % c['cut']['%s->%s' % (a, b)] if '%s->%s' % (a, b) in c.get('cut', {}) else '')
+                 for a, b in c['dens']) + '\n[Pair]\n'
     return t
 
 def expected_density(c, a, b):
-    return c['const'].get('%s->%s' % (a, b), 0.0)
+    """the value at the second grid row (r = dr): the constant, or 0 when the entry is cut off ('>=S as.zero') at or below that row"""
+    k = '%s->%s' % (a, b); v = c['const'].get(k, 0.0); S = c.get('cut', {}).get(k)
+    return 0.0 if (S is not None and 5.0 / (c['nr'] - 1) >= S) else v
+
+def same_but_cut(c, rng):
+    """two entries with the SAME form and parameters that differ only in where they are cut off: one below the second grid row, one above it"""
+    if len(c['dens']) < 2: return c
+    (a1, b1), (a2, b2) = rng.sample([tuple(x) for x in c['dens']], 2)
+    r1 = 5.0 / (c['nr'] - 1)
+    c['const']['%s->%s' % (a2, b2)] = c['const']['%s->%s' % (a1, b1)]
+    c['cut'] = {'%s->%s' % (a1, b1): r1 / 2, '%s->%s' % (a2, b2): 2 * r1}
+    return c
 
 def potable_expected_order(c):
     order = []
